@@ -5,6 +5,7 @@ import (
 	"encoding/json"
 	"fmt"
 	"sort"
+	"sync/atomic"
 	"testing"
 	"time"
 
@@ -474,6 +475,150 @@ func TestC16(t *testing.T) {
 		if r.Fail != "" {
 			p := rec.Violation("-", "fault", r.Fail, c, nil)
 			t.Fatalf("VIOLATION %s replay=%s", r.Fail, p)
+		}
+	})
+}
+
+// ---- forced window: a ring is closed while a goroutine is between its done-check and its wait ----
+
+type C16WCase struct {
+	Variant string `json:"variant"` // blocked-publisher | idle-processor
+	HoldMs  int    `json:"hold_ms"` // how long the goroutine stays parked after the peer's end was initiated
+	Rings   int    `json:"rings"`   // traffic volume (in rings) for the blocked-publisher variant
+}
+
+func runC16Window(c C16WCase) (fail string, incon string) {
+	if left := census.Lib(); len(left) > 0 {
+		time.Sleep(50 * time.Millisecond)
+		if left = census.Lib(); len(left) > 0 {
+			return "", "library goroutines left over from an earlier case"
+		}
+	}
+	b, err := fix.New(16384, "")
+	if err != nil {
+		return "fixture: " + err.Error(), ""
+	}
+	defer b.Shutdown()
+	defer fix.SetYield(nil)
+	point := "waitForWriteSpace.pre-wait"
+	if c.Variant == "idle-processor" {
+		point = "ReadWait.pre-wait"
+	}
+	var armed, trapped atomic.Bool
+	release := make(chan struct{})
+	fix.SetYield(func(p string, obj interface{}) {
+		if p == point && armed.Load() && trapped.CompareAndSwap(false, true) {
+			<-release
+		}
+	})
+	waitTrapped := func() bool {
+		for i := 0; i < 4000 && !trapped.Load(); i++ {
+			time.Sleep(500 * time.Microsecond)
+		}
+		return trapped.Load()
+	}
+	var ended []*fix.Conn
+	switch c.Variant {
+	case "blocked-publisher":
+		S, P := b.Dial("S"), b.Dial("P")
+		if _, err := S.Connect(wire.ConnectPacket("s", true, 300)); err != nil {
+			return "connect: " + err.Error(), ""
+		}
+		if _, err := P.Connect(wire.ConnectPacket("p", true, 300)); err != nil {
+			return "connect: " + err.Error(), ""
+		}
+		S.Send(&codec.Packet{Type: codec.SUBSCRIBE, PacketID: 1, Topics: [][]byte{[]byte("t/x")}, QoSs: []byte{0}})
+		if _, err := S.Barrier(); err != nil {
+			return "barrier: " + err.Error(), ""
+		}
+		S.Stall()
+		armed.Store(true)
+		for sent := 0; sent < c.Rings*16384; sent += 2000 {
+			P.SendAsync(codec.Encode(&codec.Packet{Type: codec.PUBLISH, Topic: []byte("t/x"), Payload: bytes.Repeat([]byte{'p'}, 2000)}))
+		}
+		if !waitTrapped() {
+			close(release)
+			return "", "no goroutine reached the wait window"
+		}
+		// the stalled subscriber ends while the publisher's processor sits between its done-check and its wait
+		S.Close()
+		time.Sleep(time.Duration(c.HoldMs) * time.Millisecond)
+		close(release)
+		if !S.WaitTeardown(wire.DefaultWait) {
+			return fmt.Sprintf("the stalled subscriber closed its connection, yet its teardown has not finished after %v: %v", wire.DefaultWait, census.Summary(census.Lib())), ""
+		}
+		P.Close()
+		ended = []*fix.Conn{S, P}
+	default:
+		C := b.Dial("C")
+		if _, err := C.Connect(wire.ConnectPacket("c", true, 300)); err != nil {
+			return "connect: " + err.Error(), ""
+		}
+		if _, err := C.Barrier(); err != nil {
+			return "barrier: " + err.Error(), ""
+		}
+		armed.Store(true)
+		// one more packet: after handling it the processor goes back to wait for data
+		C.SendRaw([]byte{0xC0, 0})
+		if !waitTrapped() {
+			close(release)
+			return "", "no goroutine reached the wait window"
+		}
+		C.Close()
+		time.Sleep(time.Duration(c.HoldMs) * time.Millisecond)
+		close(release)
+		ended = []*fix.Conn{C}
+	}
+	for _, cn := range ended {
+		if !cn.WaitTeardown(wire.DefaultWait) {
+			if libQuiet() {
+				return fmt.Sprintf("connection %s has ended and nothing holds it up, yet its teardown has not finished after %v and every library goroutine is parked (a goroutine was between its closed-check and its wait when the ring was closed): %v", cn.Name, wire.DefaultWait, census.Summary(census.Lib())), ""
+			}
+			return "", "teardown slow while goroutines were running"
+		}
+	}
+	if returned, _ := b.CloseServer(wire.DefaultWait); !returned {
+		return fmt.Sprintf("Server.Close has not returned after %v: %v", wire.DefaultWait, census.Summary(census.Lib())), ""
+	}
+	var left []census.G
+	for try := 0; try < 400; try++ {
+		if left = census.Lib(); len(left) == 0 {
+			break
+		}
+		time.Sleep(5 * time.Millisecond)
+	}
+	if len(left) > 0 {
+		return fmt.Sprintf("all connections have ended, but %d goroutine(s) of the library remain: %v", len(left), census.Summary(left)), ""
+	}
+	return "", ""
+}
+
+func TestC16Window(t *testing.T) {
+	rec := ev.New("C16", "close-window")
+	defer rec.Flush()
+	if rp := ev.LoadReplay(t, "close-window"); rp != nil {
+		var c C16WCase
+		json.Unmarshal(rp.Case, &c)
+		if f, _ := runC16Window(c); f != "" {
+			p := rec.Violation("-", "schedule", f, c, nil)
+			rec.Flush()
+			t.Fatalf("VIOLATION %s replay=%s", f, p)
+		}
+		return
+	} else if ev.Replaying() {
+		t.Skip()
+	}
+	rapid.Check(t, func(t *rapid.T) {
+		c := C16WCase{Variant: rapid.SampledFrom([]string{"blocked-publisher", "idle-processor"}).Draw(t, "variant"), HoldMs: rapid.SampledFrom([]int{0, 1, 5, 20}).Draw(t, "hold"), Rings: rapid.IntRange(2, 4).Draw(t, "rings")}
+		f, incon := runC16Window(c)
+		if incon != "" {
+			rec.Inconclusive()
+			rec.Class("inconclusive: "+incon, 1)
+		}
+		rec.Case(c, incon == "", "window:"+c.Variant)
+		if f != "" {
+			p := rec.Violation("-", "schedule", f, c, nil)
+			t.Fatalf("VIOLATION %s replay=%s", f, p)
 		}
 	})
 }
